@@ -9,6 +9,7 @@ package c53
 
 import (
 	"fmt"
+	abci "github.com/gnolang/gno/tm2/pkg/bft/abci/types"
 	"math/rand/v2"
 	"os"
 	"path/filepath"
@@ -98,8 +99,13 @@ func apply(appState any, seedTime time.Time) outcome {
 	}
 	defer ch.Close()
 	ch.Time = seedTime
-	r := ch.InitChain(appState)
+	var r abci.ResponseInitChain
 	var o outcome
+	if pv := vf.Try(func() { r = ch.InitChain(appState) }); pv != nil {
+		// a panic during InitChain is this mode's outcome (the node would not start)
+		o.err = fmt.Sprint("panic: ", pv)
+		return o
+	}
 	if r.Error != nil {
 		o.err = r.Error.Error()
 		return o
